@@ -27,10 +27,12 @@ import (
 	"runtime/debug"
 	"runtime/pprof"
 	"sort"
+	"strconv"
 	"strings"
 	"sync"
 	"sync/atomic"
 	"testing"
+	"time"
 
 	"verif/mc/ev"
 
@@ -310,11 +312,16 @@ func (c *collector) add(key string, rank int64, detail func() any) {
 }
 
 type checker struct {
-	r     *ev.Run
-	viol  *collector // divergences inside the contract
-	ext   *collector // divergences outside the documented contract (recorded, never a violation)
-	out   sync.Map   // outcome label -> *int64
-	procs int
+	secDeadline time.Time // the running section must stop here so that the later sections get their share
+	r           *ev.Run
+	viol        *collector // divergences inside the contract
+	ext         *collector // divergences outside the documented contract (recorded, never a violation)
+	out         sync.Map   // outcome label -> *int64
+	procs       int
+}
+
+func (c *checker) outOfTime() bool {
+	return c.r.OutOfTime() || (!c.secDeadline.IsZero() && time.Now().After(c.secDeadline))
 }
 
 func (c *checker) outcome(l string, n int64) {
@@ -559,7 +566,7 @@ func (c *checker) sectionA(fullKeys, repKeys int) {
 		var next []state
 		cut := int64(0)
 		ev.Par(len(frontier), c.procs, func(i int) {
-			if r.OutOfTime() {
+			if c.outOfTime() {
 				atomic.AddInt64(&cut, 1)
 				return
 			}
@@ -599,7 +606,8 @@ func (c *checker) sectionA(fullKeys, repKeys int) {
 					p.writes += 2
 					if base+int64(i) == 2 && w.m.name == "ibatch-commit" && w.op.kind == 'R' && w.op.a == "" && w.op.b == "b" {
 						r.Sample(map[string]any{"section": "A", "backend": be.name, "state": s.canon(), "mode": w.m.name, "op": w.op.String(),
-							"model": []string(w.o), "backend_returned": []string(got)})
+							"lines_compared": len(w.o), "identical": firstDiff(w.o, got) < 0,
+							"model_excerpt": []string(w.o[:2]), "backend_excerpt": []string(got[:2]), "backend_final_listing": got[len(got)-12]})
 					}
 					actx := func() map[string]any {
 						return map[string]any{"state": s.canon(), "mode": w.m.name, "op": w.op.String()}
@@ -802,7 +810,7 @@ func (c *checker) sectionB(states []state, allow func(class string, s state) boo
 	var execs, opens, cut, ncases int64
 	perClass := map[string]*int64{"pair": new(int64), "triple": new(int64), "extern": new(int64)}
 	ev.Par(len(states), c.procs, func(i int) {
-		if r.OutOfTime() {
+		if c.outOfTime() {
 			atomic.AddInt64(&cut, 1)
 			return
 		}
@@ -1019,7 +1027,7 @@ func (c *checker) sectionC(sets []state, maxLen, maxLenViews, maxLenWrite int) {
 	}
 	var execs, programs, coreSteps, extSteps, cut int64
 	ev.Par(len(sets), c.procs, func(si int) {
-		if r.OutOfTime() {
+		if c.outOfTime() {
 			atomic.AddInt64(&cut, 1)
 			return
 		}
@@ -1245,6 +1253,9 @@ func (c *checker) sectionD() {
 			var err error
 			panicked, _ := ev.Guard(func() { err = p.f() })
 			c.r.Add("D_use_after_close_probes", 1)
+			if p.name == "Put" || p.name == "Next" {
+				c.r.Sample(map[string]any{"section": "D", "backend": be.name, "call": object + "." + p.name, "panicked": panicked, "error": fmt.Sprint(err)})
+			}
 			switch {
 			case panicked:
 				c.outcome("D panic", 1)
@@ -1328,8 +1339,16 @@ func TestCheck(t *testing.T) {
 	// the live heap is tiny and the garbage rate huge (pebble's Get allocates); a rare GC halves the CPU cost
 	debug.SetGCPercent(1600)
 	r := ev.Start("C15", "model_checking")
-	r.SetBudget(ev.Pick(r, 150, 1620))
 	c := &checker{r: r, viol: newCollector(), ext: newCollector(), procs: runtime.NumCPU()}
+	budget := ev.Pick(r, 150, 1620)
+	if b, err := strconv.Atoi(os.Getenv("VERIF_BUDGET_S")); err == nil {
+		budget = b
+	}
+	r.SetBudget(budget)
+	start := time.Now()
+	// cumulative shares of the wall budget, proportional to the measured CPU cost of the sections:
+	// quick A 35% B 78% C 100%; thorough A 16% B 58% C(≤3 moves) 72% C(≤4 moves) 100%
+	share := func(f float64) { c.secDeadline = start.Add(time.Duration(f * float64(budget) * float64(time.Second))) }
 
 	if pf := os.Getenv("C15_PROF"); pf != "" { // development only
 		f, _ := os.Create(pf)
@@ -1344,9 +1363,10 @@ func TestCheck(t *testing.T) {
 	}
 
 	if want("A") {
-		// quick: all maps with ≤ 2 keys + one map per 3-key set; thorough: all maps with ≤ 4 keys + one
-		// map per key set of 5..8 keys
-		c.sectionA(ev.Pick(r, 2, 4), ev.Pick(r, 3, len(K)))
+		// quick: all maps with ≤ 2 keys + one map per 3-key set; thorough: all maps with ≤ 3 keys + one
+		// map per key set of 4..8 keys
+		share(ev.Pick(r, 0.35, 0.16))
+		c.sectionA(ev.Pick(r, 2, 3), ev.Pick(r, 3, len(K)))
 	}
 
 	// B: base states; quick: key sets of ≤ 2 keys, thorough: every map of ≤ 2 keys
@@ -1361,14 +1381,15 @@ func TestCheck(t *testing.T) {
 		tk, tv = []string{"a", "ab", "a\xff", "b"}, []string{"x", "y"}
 	}
 	if want("B") {
-		// quick: pairs from the 9 key sets with ≤ 1 key, triples and interleavings from all 37 key sets;
+		// quick: pairs and triples from the 9 key sets with ≤ 1 key, interleavings from all 37 key sets;
 		// thorough: pairs and interleavings from all 277 maps, triples (28-op alphabet) from the 37 key sets
 		allow := func(class string, s state) bool {
 			if r.Quick() {
-				return class != "pair" || len(s) <= 1
+				return class == "extern" || len(s) <= 1
 			}
 			return class != "triple" || isRepresentative(s)
 		}
+		share(ev.Pick(r, 0.78, 0.58))
 		c.sectionB(bStates, allow, tk, tv)
 	}
 
@@ -1376,9 +1397,12 @@ func TestCheck(t *testing.T) {
 	//    thorough: all 256 key sets with ≤ 3 moves, then key sets of ≤ 3 keys with ≤ 4 moves
 	if !want("C") {
 	} else if r.Quick() {
+		share(1)
 		c.sectionC(keySets(3), 3, 2, 2)
 	} else {
+		share(0.72)
 		c.sectionC(keySets(len(K)), 3, 3, 3)
+		share(1)
 		c.sectionC4(keySets(3))
 	}
 	if want("D") {
@@ -1426,7 +1450,8 @@ func TestCheck(t *testing.T) {
 func (c *checker) sectionC4(sets []state) {
 	saveSet := func(k string) int64 { return c.r.Get(k) }
 	prev := map[string]int64{}
-	for _, k := range []string{"C_key_sets", "C_programs_per_config", "C_model_programs", "C_backend_program_runs", "C_steps_inside_contract", "C_steps_outside_contract", "C_programs_with_injected_write_per_config", "C_iterator_configs"} {
+	for _, k := range []string{"C_key_sets", "C_programs_per_config", "C_model_programs", "C_backend_program_runs", "C_steps_inside_contract", "C_steps_outside_contract", "C_programs_with_injected_write_per_config", "C_iterator_configs",
+		"C_max_moves_db_source", "C_max_moves_snapshot_and_ibatch_sources", "C_max_moves_with_injected_write"} {
 		prev[k] = saveSet(k)
 	}
 	c.sectionC(sets, 4, 4, 0)
